@@ -24,6 +24,7 @@ _ATOMIC = ("one model step = one section of the Go code under the connection mut
 # really runs under the connection mutex (DESIGN 2.4c). Predicates over the ordered stream of
 # Lock / Unlock / return / selected statements of a function body, not AST equality.
 
+from . import srcgen
 import os
 import re
 
@@ -150,7 +151,8 @@ PROPS = {
                     "oracle on the implementation alone",
             "note": "model fidelity is sampled on every run (simulated kernel: vsys shim); real sockets are not part of this check",
             "technique": _TECH},
-        "lean": ["NbioVerif.Properties.C01"], "drivers": ["conndrv"], "harness": ["hconn"],
+        "lean": ["NbioVerif.Properties.C01", srcgen.BRIDGE_CONN], "drivers": ["conndrv"], "harness": ["hconn"],
+        "facts": [srcgen.src_facts],
         "runs": [_run(["n", "err", "ow", "cb", "rc", "deliv", "closed", "wire", "onclose"]), _real([])],
         "oracles": ["c01-"], "cs": _CS,
         "rule": "case = (stream type, epoll mode, bound, calls inside the open callback, op sequence with scripted kernel answers); distinct by "
@@ -169,7 +171,8 @@ PROPS = {
                     "readWriteLoop, with quiescent-unarmed / progress / hang oracles on the implementation alone",
             "note": "liveness in safety form (armed invariant + decreasing measure) under the assumption that an armed writable fd is eventually reported",
             "technique": _TECH},
-        "lean": ["NbioVerif.Properties.C04"], "drivers": ["conndrv"], "harness": ["hconn"],
+        "lean": ["NbioVerif.Properties.C04", srcgen.BRIDGE_CONN], "drivers": ["conndrv"], "harness": ["hconn"],
+        "facts": [srcgen.src_facts],
         "runs": [_run(["deliv", "closed", "wl", "wadded", "reg", "ctl", "onclose"]), _real([])],
         "oracles": ["c04-"], "cs": _CS,
         "rule": "same stream as C01 (writes inside the open callback before registration, from the data callback while an event is handled, "
